@@ -190,10 +190,12 @@ def run(ctx, for_c10=False):
                   {"op": "spec.beats_with_at_least", "notes": notes, "incl": incl, "minimum": mn},
                   {"op": "count.mines", "notes": notes},
                   {"op": "count.holds", "notes": notes, "head": head, "orphaned_head": oh, "orphaned_tail": ot},
-                  {"op": "spec.holds", "notes": notes, "head": head, "orphaned_head": oh, "orphaned_tail": ot}]
+                  {"op": "spec.holds", "notes": notes, "head": head, "orphaned_head": oh, "orphaned_tail": ot},
+                  {"op": "spec.group", "notes": notes, "opts": {"same_beat": mode, "join": False, "orphaned_head": "RAISE_EXCEPTION",
+                                                              "orphaned_tail": "RAISE_EXCEPTION", "incl": incl}}]
     cresp = ctx.lean.eval_sharded(creqs, shards=16)
     for i, (notes, mn, incl, mode, oh, ot, head) in enumerate(cjobs):
-        m_steps, s_beats, m_mines, m_holds, s_holds = cresp[5 * i: 5 * i + 5]
+        m_steps, s_beats, m_mines, m_holds, s_holds, s_groups = cresp[6 * i: 6 * i + 6]
         ns = [gen.mknote(j) for j in notes]
         inc = frozenset(NoteType(c) for c in incl)
         case = {"notes": notes[:80], "minimum": mn, "incl": incl, "mode": mode, "head": head, "oh": oh, "ot": ot}
@@ -204,6 +206,12 @@ def run(ctx, for_c10=False):
             try: return {"ok": f()}
             except Exception as e: return {"err": core.exc_name(e)}
         steps = call(lambda: cnt.count_steps(ns, include_note_types=inc, same_beat_notes=SameBeatNotes[mode], same_beat_minimum=mn))
+        # documented: the count is the number of groups the requested same-beat mode emits that hold at least `minimum` notes
+        if "ok" in s_groups:
+            exp_steps = {"ok": sum(1 for g in s_groups["ok"] if len(g) >= mn)}
+            if steps != exp_steps:
+                res.violation(case, "count_steps under the requested same-beat mode is not the number of emitted groups with at least the minimum size",
+                              impl=steps, expected=exp_steps); continue
         if steps != m_steps:
             res.tie_break("count.steps", case, steps, m_steps)
         # documented: steps/jumps/hands = beats carrying at least 1/2/3 (or the minimum) included notes
